@@ -404,12 +404,12 @@ def m_int_maxmin(ctx):
 NOISE = (r'^(?:core::fmt::|std::fmt::)?(?:rt::)?Arguments::<.*>::(?:new|new_const|new_v1|new_v1_formatted|from_str)(?:::<.*>)?$|^(?:core::fmt::rt::|std::fmt::rt::)?Argument::<.*>::new_\w+(?:::<.*>)?$'
          r'|^(?:alloc::fmt::|std::fmt::)?format$|^alloc::fmt::format::format_inner$|^(?:std::fmt::)?format::\{.*$|^must_use::<.*>$|^std::hint::must_use::<.*>$|^core::hint::must_use::<.*>$'
          r'|^anyhow::[^<].*$|^<anyhow::Error as From<.*>>::from$'
-         r'|^log::__private_api::\w+(?:::<.*>)?$|^log::max_level$|^log::__private_api::loc$')
+         r'|^log::__private_api::\w+(?:::<.*>)?$|^(?:log::)?max_level$|^log::__private_api::loc$|^(?:log::)?__private_api::\w+(?:::<.*>)?$')
 @model(NOISE)
 def m_noise(ctx):
     ctx.eng.opaque_calls.add(re.sub(r'::<.*', '', ctx.callee))
     return ctx.ret(Opaque(f'fmt{fresh_id()}'))
-@model(r'^<log::Level as PartialOrd<LevelFilter>>::le$|^<log::LevelFilter as PartialOrd<.*>>::(?:le|ge|lt|gt)$')
+@model(r'^<(?:log::)?Level as PartialOrd<(?:log::)?LevelFilter>>::(?:le|ge|lt|gt)$|^<(?:log::)?LevelFilter as PartialOrd<.*>>::(?:le|ge|lt|gt)$')
 def m_log_enabled(ctx):
     ctx.eng.opaque_calls.add('log level comparison (logging disabled)')
     return ctx.ret(BoolVal(False))
